@@ -28,6 +28,7 @@ type SpecEnv struct {
 	typeArgs    map[string]types.Type // instantiation of the callee's type parameters at a call site
 	owner       *ssa.Function         // the function whose contract is being compiled (for renamed variables); nil: the frame's
 	renaming    bool
+	noState     bool // compiling the body of a spec function: it is defined once, so it must not read the effect trace
 }
 
 // ownerFn is the function whose contract the environment compiles.
@@ -318,7 +319,7 @@ func (e *SpecEnv) lookupObj(name string) types.Object {
 		}
 		// allow naming any loaded package by its package name
 		for path, p := range e.vc.W.PkgByPath {
-			if p.Types != nil && p.Types.Name() == pn && strings.HasPrefix(path, RepoModule) {
+			if p.Types != nil && p.Types.Name() == pn && inRepoPath(path) {
 				if o := p.Types.Scope().Lookup(n); o != nil {
 					return o
 				}
@@ -1013,16 +1014,26 @@ func (e *SpecEnv) call(x *spec.Call) Val {
 			return Val{T: I, Term: fmt.Sprintf("(len_Slice_Int (to_runes %s))", argT(0))}
 		}
 	case "tlen":
+		if e.noState {
+			return e.fail(x, "a spec function cannot read the effect trace (it is defined once, not per state)")
+		}
 		if need(0) {
 			_, lc := vc.traceCells(e.state())
 			return Val{T: I, Term: e.state().cells[lc]}
 		}
 	case "evIs":
 		// evIs(k, "key"): event k is a call of the named effectful operation
+		if e.noState {
+			return e.fail(x, "a spec function cannot read the effect trace (it is defined once, not per state)")
+		}
 		if need(2) {
 			sl, ok := x.Args[1].(*spec.StrLit)
 			if !ok {
 				return e.fail(x, "evIs: second argument must be a string literal naming the operation")
+			}
+			if sl.Val != "dyncall" && !vc.W.isEffectKey(sl.Val) {
+				// a misspelt operation would make a negative clause vacuously true
+				return e.fail(x, "evIs: %q is not an operation declared `effect`", sl.Val)
 			}
 			tc, _ := vc.traceCells(e.state())
 			return Val{T: B, Term: fmt.Sprintf("(= (ev_tag (select %s %s)) %s)", e.state().cells[tc], argT(0), vc.effectTag(sl.Val))}
@@ -1048,7 +1059,23 @@ func (e *SpecEnv) call(x *spec.Call) Val {
 			_, unbox := vc.evBox(srt)
 			return Val{T: t, Sort: sortIfSpec(t, srt), Term: fmt.Sprintf("(%s (ev_arg (select %s %s)))", unbox, e.state().cells[tc], argT(0))}
 		}
+	case "evB1", "evFrom":
+		// evB1(k): the first boolean argument of the call recorded as event k; evFrom(k): the index of the event whose
+		// pointer result is the receiver (or first pointer argument) of that call, -1 if there is none
+		if e.noState {
+			return e.fail(x, "a spec function cannot read the effect trace (it is defined once, not per state)")
+		}
+		if need(1) {
+			tc, _ := vc.traceCells(e.state())
+			if fname == "evB1" {
+				return Val{T: B, Term: fmt.Sprintf("(ev_b1 (select %s %s))", e.state().cells[tc], argT(0))}
+			}
+			return Val{T: I, Term: fmt.Sprintf("(ev_from (select %s %s))", e.state().cells[tc], argT(0))}
+		}
 	case "evRecv", "evErr", "evS1", "evS2", "evS3":
+		if e.noState {
+			return e.fail(x, "a spec function cannot read the effect trace (it is defined once, not per state)")
+		}
 		if need(1) {
 			tc, _ := vc.traceCells(e.state())
 			sel := map[string]string{"evRecv": "ev_recv", "evErr": "ev_err", "evS1": "ev_s1", "evS2": "ev_s2", "evS3": "ev_s3"}[fname]
@@ -1135,7 +1162,7 @@ func (e *SpecEnv) call(x *spec.Call) Val {
 				if n, isNamed := types.Unalias(recv.T).(*types.Named); isNamed && n.Obj().Pkg() != nil {
 					if _, isIface := n.Underlying().(*types.Interface); isIface {
 						key := shortPath(n.Obj().Pkg().Path()) + ":" + n.Obj().Name() + "." + sel.Name
-						if !strings.HasPrefix(n.Obj().Pkg().Path(), RepoModule) {
+						if !inRepoPath(n.Obj().Pkg().Path()) {
 							key = n.Obj().Pkg().Path() + "." + n.Obj().Name() + "." + sel.Name
 						}
 						if sp, ok := vc.W.Specs[key]; ok && sp.Pure {
@@ -1247,7 +1274,7 @@ func (w *World) declareSpecFn(vc *VC, sf *spec.SpecFunc) {
 		return
 	}
 	vc.declOf[key] = true
-	env := &SpecEnv{vc: vc, st: NewState(), names: map[string]Val{}, bound: map[string]Val{}}
+	env := &SpecEnv{vc: vc, st: NewState(), names: map[string]Val{}, bound: map[string]Val{}, noState: true}
 	if sf.Pkg != "" {
 		if p := w.PkgByPath[sf.Pkg]; p != nil {
 			env.pkg = p.Types
@@ -1386,6 +1413,22 @@ func (e *SpecEnv) callPureVals(x *spec.Call, f *ssa.Function, args []Val) Val {
 			return e.fail(x, "instantiate %s: %v", f.Name(), err)
 		}
 		sig = it.(*types.Signature)
+	}
+	// an argument passed to an interface-typed parameter is boxed as the call instruction would box it
+	if e.fr != nil && f.Signature.Recv() == nil {
+		for i := range args {
+			if i >= sig.Params().Len() || args[i].T == nil {
+				continue
+			}
+			pt := sig.Params().At(i).Type()
+			if _, isIface := pt.Underlying().(*types.Interface); !isIface {
+				continue
+			}
+			if _, argIface := args[i].T.Underlying().(*types.Interface); argIface || e.sortOf(args[i]) == vc.S.Sort(pt) {
+				continue
+			}
+			args[i] = e.fr.makeInterface(Val{T: args[i].T, Term: e.termOf(args[i])}, args[i].T, pt, e.state())
+		}
 	}
 	var sorts, terms []string
 	for _, a := range args {
